@@ -26,6 +26,16 @@ def gen_join_table(rng, name, uniq, pnull=0.0):
             {"name": "s", "type": "varchar"}]
     if rng.random() < 0.3:
         cols.append({"name": "f" + uniq, "type": "boolean"})
+    # vary the row width (1..8 columns): the executor builds joined rows by appending to the left
+    # row, so widths around the slice growth steps 1, 2, 4, 8 matter
+    r = rng.random()
+    if r < 0.2:
+        cols = cols[:1]                      # key only
+    elif r < 0.3:
+        cols = cols[:2]
+    elif r < 0.6:
+        for i in range(rng.randint(1, 4)):
+            cols.append({"name": "e%d%s" % (i, uniq), "type": "int"})
     n = rng.choice([0, 1, 2, 3, 4, 5, 6, 8, 8])
     keys = rng.choice([[1, 2, 3], [1, 1, 2, 4], [2, 3, 5], [1, 2, 2, 3, 3, 3], [1, 2, 3, 4, 5], [7]])
     rows = []
